@@ -129,7 +129,7 @@ def _body(nodes):
     return "".join(o)
 
 
-def output_element(o):
+def output_element(o, form=0):
     """xsl:output rendered from the option vector (absent options are not written at all)"""
     a = []
     if o["method"] != "none": a.append('method="%s"' % o["method"])
@@ -145,16 +145,28 @@ def output_element(o):
     if o["indentAmount"] >= 0: a.append('xalan:indent-amount="%d"' % o["indentAmount"])
     if o.get("ssEscapeURLs", "absent") != "absent": a.append('xalan:escape-urls="%s"' % o["ssEscapeURLs"])
     if o.get("ssOmitMeta", "absent") != "absent": a.append('xalan:omit-meta-tag="%s"' % o["ssOmitMeta"])
-    return "<xsl:output %s/>" % " ".join(a) if a else ""
+    # XSLT 16: "A stylesheet may contain multiple xsl:output elements ... merged into a single effective xsl:output element"; the order of
+    # attributes means nothing.  The same vector is therefore SPELLED in four ways: method first / method last on one element, the method
+    # on a second element after the rest, the method on a first element before the rest.
+    if not a:
+        return ""
+    has_method = o["method"] != "none"
+    if form == 1 and has_method:
+        a = a[1:] + a[:1]
+    elif form == 2 and has_method and len(a) > 1:
+        return "<xsl:output %s/><xsl:output %s/>" % (" ".join(a[1:]), a[0])
+    elif form == 3 and has_method and len(a) > 1:
+        return "<xsl:output %s/><xsl:output %s/>" % (a[0], " ".join(a[1:]))
+    return "<xsl:output %s/>" % " ".join(a)
 
 
-def stylesheet(tree, o):
+def stylesheet(tree, o, form=0):
     return ('<xsl:stylesheet version="1.0" xmlns:xsl="http://www.w3.org/1999/XSL/Transform" xmlns:xalan="%s" '
-            'exclude-result-prefixes="xalan">%s<xsl:template match="/">%s</xsl:template></xsl:stylesheet>' % (XALAN_NS, output_element(o), _body(tree)))
+            'exclude-result-prefixes="xalan">%s<xsl:template match="/">%s</xsl:template></xsl:stylesheet>' % (XALAN_NS, output_element(o, form), _body(tree)))
 
 
 def harness_case(cid, tree, o):
-    c = {"id": cid, "xsl": stylesheet(tree, o), "xml": "<x/>", "omitMeta": o["setOmitMeta"], "escapeURLs": o["setEscapeURLs"]}
+    c = {"id": cid, "xsl": stylesheet(tree, o, (cid // 3) % 4), "xml": "<x/>", "omitMeta": o["setOmitMeta"], "escapeURLs": o["setEscapeURLs"]}
     if o["setIndent"] >= 0:
         c["setIndent"] = o["setIndent"]
     if o["setEncoding"]:
@@ -422,6 +434,15 @@ def html_raw_trees():
     return [[E("html", E("head", E("title", T("t")), E("script", D("var s = 1;", rtf=True)), E("style", D("b{c:d}", rtf=True))),
                       E("body", E("p", T("1 < 2 & 3 > 2")), E("script", D("x();", rtf=True)), E("p", T("a&b"), E("i", T("<i>"))), T("tail & <")))],
             [E("html", E("body", E("div", E("script", D("go()", rtf=True)), T("x<y"), E("c", T("1 < 2 & 3"))), E("p", D("raw", rtf=True), T(" & after"))))]]
+
+
+def html_uri_trees():
+    """HTML-shaped trees with URL attributes that hold characters the narrow encodings lack, FOLLOWED by attribute values and text that
+    need numeric character references (no entity name): whatever the URL attributes do to a shared buffer shows in what comes next"""
+    Z = "\u0416"
+    return [[E("html", E("body", E("a", T(Z + " link"), a=[["href", "caf\u00e9/\u20ac.gif"], ["title", Z + " t"]]), E("p", T("after " + Z + " and \U0001d11e")),
+                      E("img", a=[["src", Z + ".png"], ["alt", Z]]), E("a", T("x"), a=[["href", Z + "/" + Z], ["title", "\u0429"]]), T("tail " + Z)))],
+            [E("html", E("head", E("title", T(Z)), E("link", a=[["href", "\u20ac.css"], ["rel", "stylesheet"], ["title", Z]])), E("body", E("p", T(Z)), E("a", T("\u0429"), a=[["href", "\U0001d11e.mid"], ["name", Z]])))]]
 
 
 def gen_xmlish(rng, depth=0):
